@@ -756,6 +756,38 @@ func (e *Env) evalCall(t *ast.CallExpr) Val {
 				panic(specErr("forall/exists takes (k, lo, hi, body) or (k, body)"))
 			}
 			return boolVal(body)
+		case "visited":
+			// visited(N, k): the range over a map that drives loop N has already yielded key k
+			ordV, ok := constInt(t.Args[0])
+			if !ok {
+				panic(specErr("visited: the loop ordinal must be a constant"))
+			}
+			it := c.rangeLoop[ordV]
+			if it == nil {
+				panic(specErr("visited: loop %d is not a range over a map", ordV))
+			}
+			_, seen := c.mapLookup(e.cur, it.visited, e.eval(t.Args[1]))
+			return boolVal(seen)
+		case "forallt":
+			// forallt(k, T, body): quantify over a value of Go type T (one bound variable per leaf)
+			name := t.Args[0].(*ast.Ident).Name
+			typ := c.eng.resolveTypeExpr(e.pkg, t.Args[1])
+			ls := leavesOf(typ)
+			v := Val{T: typ, L: make([]*Term, len(ls))}
+			var bvs []*Term
+			for j, l := range ls {
+				c.nfresh++
+				bv := Var(fmt.Sprintf("%s_%d!%d", name, j, c.nfresh), l.Sort)
+				v.L[j] = bv
+				bvs = append(bvs, bv)
+				c.bound = append(c.bound, bv.Op)
+			}
+			if p, ok := typ.Underlying().(*types.Pointer); ok {
+				v.Root = p.Elem()
+			}
+			env := e.with(map[string]Val{name: v})
+			defer func() { c.bound = c.bound[:len(c.bound)-len(bvs)] }()
+			return boolVal(Forall(bvs, env.evalBool(t.Args[2])))
 		case "foralls":
 			// foralls(s, body): quantify over a string-sorted variable
 			name := t.Args[0].(*ast.Ident).Name
@@ -1186,4 +1218,13 @@ func reindex(t *Term, k string, off *Term, a *Term) *Term {
 		return n
 	}
 	return rec(t)
+}
+
+
+func constInt(x ast.Expr) (int, bool) {
+	if bl, ok := x.(*ast.BasicLit); ok && bl.Kind == token.INT {
+		n, err := strconv.Atoi(bl.Value)
+		return n, err == nil
+	}
+	return 0, false
 }
